@@ -144,15 +144,29 @@ def check_at(m, f, rule, lenfield, index_arg='$1'):
     for b in f.blocks:
         for c in b.insts:
             if c.op == 'call' and c.x.get('noreturn'):
-                if c.srcfn == 'cstl_guarded_ptr_get_const':
-                    continue    # the stray-copy guard's own abort (C20) is not an index abort
                 facts = pv.facts_at(c)
+                if _is_copy_guard_abort(f, facts):
+                    continue    # the stray-copy guard's own abort (C20) is not an index abort
                 if not any(('ule', L.ref, index_arg) in facts for L in lens):
                     bad.append('abort() at %s is reachable for an index below %s (not dominated by %s <= i)' % (c.loc(), lenfield, lenfield))
     if bad:
         rule.violation(f.name, '; '.join(bad), floc(m, f), {})
     else:
         rule.ok(f.name, 'returns under i <u %s; aborts under %s <=u i' % (lenfield, lenfield), floc(m, f))
+
+
+def _is_copy_guard_abort(f, facts):
+    """abort reached on the edge  gp->self != gp  (the guarded pointer's stray-copy test)"""
+    for (op, x, y) in facts:
+        if op != 'ne':
+            continue
+        for p_, q_ in ((x, y), (y, x)):
+            pi = f.get(p_)
+            if pi is not None and pi.op == 'load':
+                a = resolve_addr(f, pi.o[0])
+                if a.fsteps[-1:] == (('cstl_guarded_ptr', 'self'),):
+                    return True
+    return False
 
 
 def check_resize(m, f, rule):
